@@ -699,6 +699,9 @@ impl Check for VaultToggles {
 pub struct HelperCase {
     pub flags: [bool; 3],
     pub amount: Uint128,
+    /// LP tokens of the pair that somebody transferred to the helper beforehand (anyone can)
+    #[serde(default)]
+    pub stray_lp: Uint128,
 }
 
 pub struct HelperDepositToggle;
@@ -709,21 +712,22 @@ impl Check for HelperDepositToggle {
         "helper_deposit_respects_switch"
     }
     fn rule(&self) -> &'static str {
-        "pair with an incentive contract and the frontend helper; all 8 switch combinations (corpus) and random amounts: a deposit through the helper must be rejected without moving funds iff deposits are disabled on the pair, and otherwise succeed and stake LP for the user."
+        "pair with an incentive contract and the frontend helper; all 8 switch combinations x {helper empty, helper holding LP tokens somebody sent it} (corpus) and random amounts: a deposit through the helper must be rejected without moving funds iff deposits are disabled on the pair, and otherwise succeed and stake LP for the user."
     }
     fn strategy(&self, _tier: Tier) -> BoxedStrategy<HelperCase> {
-        (any::<[bool; 3]>(), gen::log_uniform(1000, 1u128 << 50))
-            .prop_map(|(flags, a)| HelperCase { flags, amount: Uint128::new(a) })
+        (any::<[bool; 3]>(), gen::log_uniform(1000, 1u128 << 50), prop_oneof![1 => Just(0u128), 1 => Just(1u128), 2 => gen::log_uniform(1, 1u128 << 50)])
+            .prop_map(|(flags, a, s)| HelperCase { flags, amount: Uint128::new(a), stray_lp: Uint128::new(s) })
             .boxed()
     }
     fn cases(&self, tier: Tier) -> u32 {
         tier.pick(4_000, 200_000)
     }
     fn corpus(&self) -> Vec<HelperCase> {
-        (0..8u8)
+        (0..16u8)
             .map(|f| HelperCase {
                 flags: [f & 1 != 0, f & 2 != 0, f & 4 != 0],
                 amount: Uint128::new(1_000_000),
+                stray_lp: Uint128::new(if f & 8 != 0 { 5_000 } else { 0 }),
             })
             .collect()
     }
@@ -763,6 +767,13 @@ impl Check for HelperDepositToggle {
         rec.sample(c);
         let who = iw.user(1);
         let a = c.amount.u128();
+        if !c.stray_lp.is_zero() {
+            // LP transfers are no pool operation; the switches do not concern them
+            let donor = iw.user(2);
+            let lp = iw.lp.clone();
+            iw.w.transfer(&donor, &helper, &lp, c.stray_lp.u128()).map_err(|e| Fail::unobservable(format!("transferring LP to the helper: {e}")))?;
+            rec.class("helper_holds_stray_lp");
+        }
         let snap = iw.w.snapshot();
         let staked_before = iw.w.bal(&iw.lp, &iw.incentive);
         let r = iw.w.exec(
